@@ -111,16 +111,14 @@ func C06(run *hx.Run) {
 		return
 	}
 	defer writer.Close()
-	sizes := []int{1024}
+	type cfg struct{ ps, nrows int }
+	sizes := []cfg{{1024, 120}}
 	if run.Thorough() {
-		sizes = []int{512, 1024, 4096, 65536}
+		sizes = []cfg{{512, 400}, {1024, 400}, {4096, 400}, {65536, 400}, {512, 2500}, {2048, 1500}, {8192, 3000}, {16384, 1200}, {32768, 800}}
 	}
-	for _, ps := range sizes {
-		path := filepath.Join(dir, fmt.Sprintf("l%d.sqlite", ps))
-		nrows := 120
-		if run.Thorough() {
-			nrows = 400
-		}
+	for ci, c := range sizes {
+		ps, nrows := c.ps, c.nrows
+		path := filepath.Join(dir, fmt.Sprintf("l%d-%d.sqlite", ps, ci))
 		if err := makeVersionedDB(writer, path, ps, nrows); err != nil {
 			run.Inconclusive("db: " + err.Error())
 			return
